@@ -30,8 +30,9 @@ structure SNode where
 
 def SNode.findDead (s : SNode) (hid : Nat) : Option Host := s.dead.find? (fun h => h.id == hid)
 
-def SNode.setDead (s : SNode) (d : Host) : SNode :=
-  { s with dead := s.dead.map (fun h => if h.id == d.id then d else h) }
+/-- the dead object `dOld` was mutated through the pointer into `dNew`. -/
+def SNode.setDead (s : SNode) (dOld dNew : Host) : SNode :=
+  { s with dead := s.dead.map (fun h => if h = dOld then dNew else h) }
 
 /-- `closeTunnel` / `DeleteHostInfo` of a live hostinfo, the pointer being kept by somebody. -/
 def sDelete (s : SNode) (hid : Nat) : SNode :=
@@ -140,12 +141,13 @@ def staleMigrateLoop (n : Node) (dn : Host) (v1 : Bool) : List Relay → Nat →
 
 /-- `migrateRelayUsed(old, new)` on an `SNode`: each hostinfo is taken from the hostmap if it is there,
 else from the dead objects. -/
+def sOldRecs (s : SNode) (oldId : Nat) : Option (List Relay) :=
+  match s.node.findHost oldId with
+  | some oh => some oh.recs
+  | none => (s.findDead oldId).map (·.recs)
+
 def sMigrate (s : SNode) (c : Nat) (oldId newId : Nat) (v1 : Bool) : SNode × Nat × List Out :=
-  let oldRecs : Option (List Relay) :=
-    match s.node.findHost oldId with
-    | some oh => some oh.recs
-    | none => (s.findDead oldId).map (·.recs)
-  match oldRecs with
+  match sOldRecs s oldId with
   | none => (s, c, [])
   | some recs =>
     match s.node.findHost newId with
@@ -165,11 +167,13 @@ def sMigrate (s : SNode) (c : Nat) (oldId newId : Nat) (v1 : Bool) : SNode × Na
 between `QueryVpnAddr(relay)` and `AddRelay`'s lock. The teardown only matters on the path that reaches
 `AddRelay` (no record for `vpnIp` yet): there `AddRelay` fails, the request is skipped (`continue`).
 The Bool says whether that path was taken. -/
+def racePlain (s : SNode) (c : Nat) (vpnIp : Addr) (v1 : Bool) (relay : Addr) : SNode × Nat × List Out × Bool :=
+  match startRelays s.node c vpnIp v1 [relay] with
+  | (n1, c1, o) => ({ s with node := n1 }, c1, o, false)
+
 def raceStart (s : SNode) (c : Nat) (vpnIp : Addr) (v1 : Bool) (relay : Addr) : SNode × Nat × List Out × Bool :=
   let n := s.node
-  let plain : SNode × Nat × List Out × Bool :=
-    match startRelays n c vpnIp v1 [relay] with
-    | (n1, c1, o) => ({ s with node := n1 }, c1, o, false)
+  let plain := racePlain s c vpnIp v1 relay
   if !(n.useRelaysCfg && !n.amRelay) then plain
   else if relay == vpnIp || n.myAddrs.contains relay then plain
   else match n.queryVpnAddr relay with
@@ -201,7 +205,7 @@ def sStep (x : SNode × Nat) (op : SOp) : SNode × Nat :=
     | none => x
     | some d =>
       match staleHandleControl x.1.node x.2 d m with
-      | (n1, d1, c1, _) => (({ x.1 with node := n1 } : SNode).setDead d1, c1)
+      | (n1, d1, c1, _) => (({ x.1 with node := n1 } : SNode).setDead d d1, c1)
   | .migrate o nw v1 => let r := sMigrate x.1 x.2 o nw v1; (r.1, r.2.1)
   | .raceStart vpnIp v1 relay => let r := raceStart x.1 x.2 vpnIp v1 relay; (r.1, r.2.1)
   | .forget hid => ({ x.1 with dead := x.1.dead.filter (fun h => !(h.id == hid)) }, x.2)
